@@ -225,6 +225,7 @@ class Printer:
         self.attr = {}         # attribute of the parameter -> coq variable
         self.types = {}        # local name -> 'term' | 'mv' | 'stmt' | 'str' | 'nat'
         self.alias = {}        # local name -> coq expression (enumerate with a start offset)
+        self.defs = {}         # local name -> the Python expression it was bound to (pure; inlined at its uses)
         self.where = ''
 
     # ---- which Encoder method prints which class (from the classes' own `visit` methods)
@@ -260,6 +261,7 @@ class Printer:
             fail(f'Encoder.{name}', m, 'signature is not (self, node)')
         self.cls, self.param, self.where = cls, args[1], f'Encoder.{name}'
         self.types = {}
+        self.defs = {}
         return m
 
     # ---- expressions
@@ -271,6 +273,8 @@ class Printer:
                 return str(n.value)
             fail(self.where, n, 'constant outside the subset')
         if isinstance(n, ast.Name):
+            if n.id in self.defs:
+                return self.expr(self.defs[n.id])
             if n.id in self.alias:
                 return self.alias[n.id]
             if n.id in self.types:
@@ -297,6 +301,9 @@ class Printer:
             return '(get_statement_type kind)'
         if isinstance(n, ast.BinOp) and isinstance(n.op, ast.Add):
             return f'({self.expr(n.left)} + {self.expr(n.right)})'
+        if isinstance(n, ast.BinOp) and isinstance(n.op, ast.Sub):
+            # only used as `len(xs) - k` compared with an index of a loop over xs (never evaluated for an empty xs)
+            return f'({self.expr(n.left)} - {self.expr(n.right)})'
         if isinstance(n, ast.Compare) and len(n.ops) == 1:
             a, b = self.expr(n.left), self.expr(n.comparators[0])
             if isinstance(n.ops[0], ast.Eq):
@@ -316,7 +323,19 @@ class Printer:
     # ---- statements -> list piece
     def stmts(self, body):
         out = []
-        for s in body:
+        body = list(body)
+        if body and isinstance(body[-1], ast.Return) and body[-1].value is None:
+            body = body[:-1]                              # a trailing bare `return`
+        for i, s in enumerate(body):
+            # `if c: A; return` followed by the rest  =  `if c: A else: rest`
+            if isinstance(s, ast.If) and not s.orelse and s.body and isinstance(s.body[-1], ast.Return) and s.body[-1].value is None:
+                saved = dict(self.defs)
+                then = self.stmts(s.body[:-1])
+                self.defs = dict(saved)
+                els = self.stmts(body[i + 1:])
+                self.defs = saved
+                out.append(f'(if {self.cond(s.test)} then {then} else {els})')
+                break
             out.append(self.stmt(s))
         out = [o for o in out if o is not None]
         if not out:
@@ -340,6 +359,13 @@ class Printer:
     def stmt(self, s):
         if isinstance(s, ast.Pass):
             return None
+        if isinstance(s, (ast.Assign, ast.AnnAssign)) and s.value is not None:
+            t = s.targets[0] if isinstance(s, ast.Assign) and len(s.targets) == 1 else (s.target if isinstance(s, ast.AnnAssign) else None)
+            if isinstance(t, ast.Name) and t.id not in self.types and t.id != self.param and t.id not in self.defs:
+                # a pure local bound once: inlined at its uses (the expression is checked when it is used)
+                self.defs[t.id] = s.value
+                return None
+            fail(self.where, s, 'assignment outside the subset')
         if isinstance(s, ast.Expr) and isinstance(s.value, ast.Constant) and isinstance(s.value.value, str):
             return None                                                   # docstring
         if isinstance(s, ast.Expr) and isinstance(s.value, ast.Call) and isinstance(s.value.func, ast.Attribute) \
@@ -350,6 +376,8 @@ class Printer:
                 and isinstance(s.value.func.value, ast.Name) and s.value.func.value.id == 'self' \
                 and len(s.value.args) == 1 and not s.value.keywords:
             a = s.value.args[0]
+            while isinstance(a, ast.Name) and a.id in self.defs:
+                a = self.defs[a.id]
             if s.value.func.attr == 'write' and isinstance(a, ast.IfExp):
                 # self.write(A if c else B)  =  if c: self.write(A) else: self.write(B)
                 mk = lambda x: ast.Expr(value=ast.Call(func=s.value.func, args=[x], keywords=[]))  # noqa: E731
@@ -891,6 +919,8 @@ class Slicer:
                 return '(' + v(f.id) + ' ' + ' '.join(self.expr(x) for x in a) + ')'
         if isinstance(f, ast.Attribute):
             a = n.args
+            if f.attr == 'removesuffix' and len(a) == 1:
+                return f'(py_removesuffix {self.expr(f.value)} {self.expr(a[0])})'
             if f.attr == 'endswith' and len(a) == 1:
                 return f'(py_endswith {self.expr(f.value)} {self.expr(a[0])})'
             if f.attr == 'get' and len(a) == 2 and isinstance(a[1], ast.Tuple) and not a[1].elts:
@@ -932,6 +962,9 @@ class Slicer:
                 if isinstance(n, ast.Call) and isinstance(n.func, ast.Attribute) and n.func.attr in ('append', 'extend', 'update') \
                         and isinstance(n.func.value, ast.Name):
                     add(n.func.value.id)
+                if isinstance(n, ast.Call) and isinstance(n.func, ast.Name) and n.func.id == 'next' and len(n.args) == 1 \
+                        and isinstance(n.args[0], ast.Name):
+                    add(n.args[0].id)
                 if isinstance(n, (ast.Yield,)):
                     add('yielded__')
         return out
@@ -967,6 +1000,13 @@ class Slicer:
                     if not (isinstance(first, ast.Constant) and isinstance(first.value, str) and first.value.startswith('$')):
                         fail(self.where, s, 'formatted key that is not of the form $...')
                     e = f'dict_add_anon {val} {v(d)}'
+                    # `next(counter)` inside the key advances the counter
+                    ctrs = [c.args[0].id for c in ast.walk(target.slice) if isinstance(c, ast.Call) and isinstance(c.func, ast.Name)
+                            and c.func.id == 'next' and len(c.args) == 1 and isinstance(c.args[0], ast.Name)]
+                    if ctrs:
+                        if len(ctrs) != 1 or ctrs[0] not in self.locals:
+                            fail(self.where, s, 'counter use outside the subset')
+                        return self.flush(lambda: f'let {v(d)} := {e} in\n  let {v(ctrs[0])} := ({v(ctrs[0])} + 1) in\n  {cont()}')
                 else:
                     e = f'dict_set {self.expr(target.slice)} {val} {v(d)}'
                 return self.flush(lambda: f'let {v(d)} := {e} in\n  {cont()}')
@@ -1280,6 +1320,10 @@ class Slicer:
                     continue
                 if isinstance(t, ast.Name) and isinstance(s.value, ast.Constant) and s.value.value == 0:
                     inits.append((t.id, '0'))
+                    continue
+                if isinstance(t, ast.Name) and isinstance(s.value, ast.Call) and isinstance(s.value.func, ast.Name) \
+                        and s.value.func.id == 'count' and not s.value.args and not s.value.keywords:
+                    inits.append((t.id, '0'))              # itertools.count(): the next number it will give
                     continue
             fail('slice_database', s, 'initialisation outside the subset')
         self.locals |= {x for x, _ in inits}
